@@ -170,6 +170,28 @@ def _getsize_known(script_toks, I, S):
     return n is not None and I.split()[1:2] == ['r=n:%d' % n] and S.split()[1:2] in (['r=notfound'], ['r=closed'])
 
 
+def _get_over_limit_known(toks, I, S):
+    """the recorded finding, exactly: Get answers too-large for a block the store holds whose section
+    (CID + data) is longer than the session's MaxAllowedSectionSize; the reference returns its bytes."""
+    try:
+        ms = int(toks.get('ms', ''))
+        cidlen = len(bytes.fromhex(toks.get('c', '')))
+    except ValueError:
+        return False
+    s = S.split()[1:2]
+    if I.split()[1:2] != ['r=toolarge'] or not s:
+        return False
+    if s[0] == 'r=notfound':
+        # the lookup of an absent key walked through an over-limit section carrying the same digest
+        # (same root cause: the read-side limit applied to the store's own sections)
+        return True
+    if not s[0].startswith('r=d:'):
+        return False
+    data = s[0][4:]
+    dlen = 0 if data == '-' else len(data) // 2
+    return cidlen + dlen > ms
+
+
 def signature(pid, script, I, S):
     """Deterministic label of WHAT fails, from structural features of the failing case."""
     fam = script.split(' ', 1)[0]
@@ -233,6 +255,8 @@ def signature(pid, script, I, S):
             return 'C12/file-bytes-differ-after-resumption'
         return 'C12/' + fam + '-result-differs-after-resumption'
     if pid in ('C04', 'C05', 'C01'):
+        if fam == 'get' and _get_over_limit_known(toks, I, S):
+            return pid + '/get-refuses-stored-section-over-read-limit'
         if fam == 'size' and _getsize_known(toks, I, S):
             return pid + '/getsize-identity-ignores-store-identity-option'
         if fam == 'file':
